@@ -39,11 +39,13 @@ type Opts struct {
 	SnapshotEntries    uint64
 	CompactionOverhead uint64
 	RecoveryType       table.SnapshotRecoveryType
-	Applied            func(table string, rev uint64)
+	// RecoveryTypes (StartCluster): per-node snapshot format, overriding RecoveryType (replicas configured with different formats)
+	RecoveryTypes []table.SnapshotRecoveryType
+	Applied       func(table string, rev uint64)
 	// AppliedNode (StartCluster): like Applied, with the index of the node whose table state machine applied - it runs ON that node's
 	// apply path, so a hook that sleeps holds exactly that replica back
 	AppliedNode func(node int, table string, rev uint64)
-	Pebble             bool // use the pebble LogDB instead of tan
+	Pebble      bool // use the pebble LogDB instead of tan
 }
 
 type Fixture struct {
@@ -257,6 +259,9 @@ func StartCluster(n int, o Opts) ([]*Fixture, error) {
 				},
 				Meta: storage.MetaConfig{ElectionRTT: 10, HeartbeatRTT: 1},
 				FS:   lvfs.NewMem(), Log: zap.NewNop().Sugar(), LogCacheSize: o.LogCacheSize,
+			}
+			if len(o.RecoveryTypes) >= i {
+				cfg.Table.RecoveryType = o.RecoveryTypes[i-1]
 			}
 			if o.AppliedNode != nil {
 				node := i - 1
